@@ -211,6 +211,9 @@ fn continuation(w: &mut W, per_op: Option<usize>) -> VResult<()> {
 }
 
 pub const REFAULT: usize = 200;
+/// Continuation that starts with `shrink_to_fit` (only run when the fault left an old table behind):
+/// a right-sized, possibly exactly full main table is where a left-over bookkeeping error shows first.
+pub const SHRINK_FIRST: usize = 201;
 
 /// A fault that keeps coming back: every one of the next 64 key-adding calls has the first hash after
 /// the added key's own (the first element it relocates, while a resize is pending) panic again.  Each
@@ -295,6 +298,13 @@ fn inject(cfg: &crate::mapworld::Cfg, state: &[Op], op: Op, kind: Cb, i: u64, pe
         if per_op == Some(REFAULT) {
             refault_trajectory(&mut w)?;
         }
+        if per_op == Some(SHRINK_FIRST) {
+            if w.stats().old.is_none() {
+                return Ok(());
+            }
+            w.apply(Op::k(OpK::ShrinkToFit))?;
+            w.audit(true)?;
+        }
         continuation(&mut w, per_op)
     });
     match res {
@@ -320,6 +330,7 @@ pub fn run_e4(spec: &ShardSpec, cur: Option<&str>) -> Outcome {
     let parts: usize = spec.extra.get("parts").and_then(|s| s.parse().ok()).unwrap_or(1);
     let per_op_cont = spec.extra.get("per_op_cont").map_or(false, |s| s == "1");
     let refault = spec.extra.get("refault").map_or(false, |s| s == "1");
+    let shrink_first = spec.extra.get("shrink_first").map_or(false, |s| s == "1");
     let fam_alpha = spec.extra.get("fam_alpha").cloned().unwrap_or_else(|| "mut1+ch0+shape".to_string());
     let fam = build_family::<W>(&cfg, &fam_alpha, spec.n, cap, &mut out, cur);
     out.layers.push((fam.len() as u64, 0));
@@ -387,6 +398,9 @@ pub fn run_e4(spec: &ShardSpec, cur: Option<&str>) -> Outcome {
                     let mut conts: Vec<Option<usize>> = if per_op_cont { (0..14).map(Some).chain([None]).collect() } else { vec![None] };
                     if refault && kind == Cb::Hash {
                         conts.push(Some(REFAULT));
+                    }
+                    if shrink_first {
+                        conts.push(Some(SHRINK_FIRST));
                     }
                     for per_op in conts {
                         let mut hist = state.clone();
